@@ -198,7 +198,7 @@ def _thorough_selftest(pid):
             status, rules = "ERROR:" + str(e)[:80], []
         res["mutants"][m["id"]] = {"status": status, "rules": rules, "expected": m.get("expect_rule")}
         if status not in ("CAUGHT", "CAUGHT-OTHER-RULE"): missed.append(m["id"])
-    for sd in sorted(glob.glob(os.path.join(VERIF, "seeded", pid + "-s*"))):
+    for sd in sorted(glob.glob(os.path.join(VERIF, "seeded", pid + "*-s*"))):
         d, repo = selftest.make_scratch()
         try:
             r = subprocess.run(["patch", "-s", "-p1", "-d", repo, "-i", os.path.join(sd, "patch.diff")], capture_output=True, text=True)
